@@ -355,7 +355,10 @@ fn execute_inner(c: &PlaceCase) -> PlaceObs {
         }
         let fa = fa as usize;
         let base = fa & !0xFFF;
-        let Some(a) = Arena::map(base, 2 * PAGE) else {
+        // (one page is enough when the fake's code ends inside it: a fake in the page right below
+        // the trampoline must not claim the trampoline's page)
+        let pages = if fa + 32 <= base + PAGE { 1 } else { 2 };
+        let Some(a) = Arena::map(base, pages * PAGE) else {
             o.status = "discarded".into();
             o.why = format!("fake arena {base:#x} not mappable");
             return o;
@@ -658,6 +661,8 @@ pub fn strategy_sel(only_async: bool) -> impl Strategy<Value = PlaceCase> {
     ];
     let d = prop_oneof![
         2 => -(1i64 << 20)..(1i64 << 20),
+        // (a fake within a signed byte of the trampoline's branch, mostly in the page below it)
+        1 => -200i64..40,
         4 => rel32_edge(),
         2 => (31u32..46, any::<u64>(), any::<bool>()).prop_map(|(b, m, neg)| { let v = ((1u64 << b) | (m & ((1u64 << b) - 1))) as i64; if neg { -v } else { v } }),
         1 => -(1i64 << 31)..(1i64 << 31),
